@@ -708,7 +708,7 @@ class Schema(BaseField):
         """
         Compile the schema into an initial config with default values set.
         """
-        return Config(self, **data)
+        return Config(self, parent, **data)
 
     def __iter__(self) -> Iterator[Tuple[str, BaseField]]:
         """
